@@ -3,8 +3,8 @@ use crate::{labels_from_str, sentence_with};
 use std::borrow::Cow;
 use vaporetto::{CharacterBoundary as B, Sentence};
 
-const TEXT_ALPHA: [char; 11] = ['a', ' ', '/', '\\', 'あ', '-', '|', 'b', 'é', '𠀋', '\u{3000}'];
-const TAGS: [Option<&str>; 9] = [None, Some("x"), Some("/"), Some("a b"), Some("\\"), Some("名詞-普通"), Some("|"), Some("-"), None];
+const TEXT_ALPHA: [char; 13] = ['a', ' ', '/', '\\', 'あ', '-', '|', 'b', 'é', '𠀋', '\u{3000}', '\r', '\n'];
+const TAGS: [Option<&str>; 9] = [None, Some("x"), Some("/"), Some("a b"), Some("\\"), Some("名詞-普通"), Some("|"), Some("-"), Some("x\r")];
 
 /// per-character tag rows with trailing None removed
 fn char_tags(s: &Sentence) -> Vec<Vec<Option<String>>> {
